@@ -371,6 +371,29 @@ def pair_pen_ops(rec, ops_in, ops_out, tol, aq, src, meta):
     rec.same(pass_in, pass_out, "pen-passthrough", src, meta)
 
 
+def drive_pointpen(rec, ops, tol, aq, meta):
+    from fontTools.pens.cu2quPen import Cu2QuPointPen
+    from fontTools.pens.recordingPen import RecordingPen, RecordingPointPen
+    from fontTools.pens.pointPen import SegmentToPointPen, PointToSegmentPen
+
+    # point pen: whole-contour comparison (point pens may restructure the contour)
+    rp = RecordingPointPen()
+    try:
+        play(ops, SegmentToPointPen(Cu2QuPointPen(rp, float(tol), all_quadratic=aq)))
+    except Exception as e:
+        rec.exc(e, "Cu2QuPointPen", meta)
+        return
+    r2 = RecordingPen()
+    rp.replay(PointToSegmentPen(r2, outputImpliedClosingLine=True))
+    r1 = RecordingPen()
+    play(ops, SegmentToPointPen(PointToSegmentPen(r1, outputImpliedClosingLine=True)))
+    A, B = ops_pieces(r1.value), ops_pieces(r2.value)
+    if A or B:
+        rec.path(A, B, tol, "Cu2QuPointPen", meta)
+        if aq:
+            rec.same(0, sum(1 for t, _ in B if t == "c"), "pointpen-all-quadratic-left-a-cubic", "Cu2QuPointPen", meta)
+
+
 def drive_pens(rec, chk, count):
     from fontTools.pens.cu2quPen import Cu2QuPen, Cu2QuPointPen, Cu2QuMultiPen
     from fontTools.pens.recordingPen import RecordingPen, RecordingPointPen
@@ -391,22 +414,8 @@ def drive_pens(rec, chk, count):
             rec.exc(e, "Cu2QuPen", meta)
             continue
         pair_pen_ops(rec, ops, r.value, tol, aq, "Cu2QuPen", meta)
-        # point pen: whole-contour comparison (point pens may restructure the contour)
-        rp = RecordingPointPen()
-        try:
-            play(ops, SegmentToPointPen(Cu2QuPointPen(rp, float(tol), all_quadratic=aq)))
-        except Exception as e:
-            rec.exc(e, "Cu2QuPointPen", meta)
-            continue
-        r2 = RecordingPen()
-        rp.replay(PointToSegmentPen(r2, outputImpliedClosingLine=True))
-        r1 = RecordingPen()
-        play(ops, SegmentToPointPen(PointToSegmentPen(r1, outputImpliedClosingLine=True)))
-        A, B = ops_pieces(r1.value), ops_pieces(r2.value)
-        if A or B:
-            rec.path(A, B, tol, "Cu2QuPointPen", meta)
-            if aq:
-                rec.same(0, sum(1 for t, _ in B if t == "c"), "pointpen-all-quadratic-left-a-cubic", "Cu2QuPointPen", meta)
+        if chk.tier == "thorough" or it % 5 < 3:
+            drive_pointpen(rec, ops, tol, aq, meta)
         # multi pen: m masters with the same structure
         m = rng.randint(2, 3)
         masters = [ops] + [[(op, tuple((p[0] + rng.randint(-2, 2), p[1] + rng.randint(-2, 2)) for p in args)) for op, args in ops]
@@ -716,9 +725,9 @@ def build_cases(chk, rec):
     chk.log("random + error path done, %d cases so far" % len(rec.traces))
 
     # ---- pens, glyphs, reverse direction ----------------------------------------
-    drive_pens(rec, chk, 1500 if thorough else 200)
+    drive_pens(rec, chk, 1000 if thorough else 200)
     drive_glyphs(rec, chk, 1200 if thorough else 150)
-    drive_qu2cu(rec, chk, cu2qu, 6000 if thorough else 450)
+    drive_qu2cu(rec, chk, cu2qu, 3000 if thorough else 360)
     chk.log("pens/glyphs/qu2cu done, %d cases" % len(rec.traces))
 
 
@@ -802,7 +811,7 @@ def run(chk):
     if nraise < 20:
         # not a machinery failure: a tree that never raises is judged on what it returned instead
         chk.log("WARNING: error path hardly exercised (%d raises)" % nraise)
-    rejected = judge(chk, rec)
+    rejected = judge(chk, rec, chunk=30000 if chk.tier == "thorough" else 12000)
     report(chk, rejected)
     chk.exhaustive = False
     chk.assumptions += [
